@@ -2,7 +2,7 @@
    See Model.v for the vocabulary (oracles, ghost [wire] = bytes the peer receives). *)
 From Coq Require Import List ZArith Bool.
 Import ListNotations.
-Require Import V.C36.Model V.C36.Proofs V.C36.ViaC24.
+Require Import V.C36.Model V.C36.Proofs V.C36.ViaC24 V.C36.Pass V.C36.Order V.gen.C36Order.
 Open Scope Z_scope.
 
 (* CLIENT STACK, transmit.  Over every history of enqueues and service passes and every send
@@ -73,6 +73,33 @@ Theorem server_rx_partition : forall cas ops,
   Forall (fun kc => concat (rpk (snd kc)) ++ rbuf (snd kc) = rgot (snd kc)) (r_run cas ops).
 Proof. exact r_run_inv. Qed.
 Print Assumptions server_rx_partition.
+
+(* COMPOSITE ENTRY POINT TcpServerStack.serviceAll (receive side, no transmit data queued).
+   For EVERY order of the five steps that satisfies order_ok (serviceConnects never runs while
+   bytes read by serviceReceivesAllIx are still unparsed, a pass ends parsed), every set of
+   accepted connections and every sequence of passes with arbitrary per-connection recv oracles
+   (data, EAGAIN, close -- in particular data followed by close within ONE pass): at every pass
+   boundary, for every connection ever accepted, LIVE OR ALREADY DROPPED, the packets delivered
+   to its remote concatenate to exactly the bytes read from its socket and nothing is buffered.
+   So every byte received on a connection is delivered before the connection is dropped. *)
+Theorem server_pass_delivers_before_drop : forall order cas passes,
+  order_ok order = true ->
+  Forall (fun kc : Z * pconn => concat (pdel (snd kc)) = pgot (snd kc) /\ pbuf (snd kc) = [])
+         (p_run order cas passes).
+Proof. exact p_run_delivered. Qed.
+Print Assumptions server_pass_delivers_before_drop.
+
+(* ... and the order extracted from the source of TcpServerStack.serviceAll ON THIS RUN
+   (coq/gen/C36Order.v, regenerated by props/C36/translate.py) is such an order. *)
+Theorem server_serviceAll_order_is_safe : order_ok server_all_order = true.
+Proof. exact gen_order_ok. Qed.
+Print Assumptions server_serviceAll_order_is_safe.
+
+(* the premise matters: receive, THEN serviceConnects, then parse loses the last bytes *)
+Example swapped_order_loses_bytes :
+  p_run [StRecv; StConnects; StRx; StTx; StSend] [5001] [[(5001, [Data [1;2;3]; Closed])]]
+  = [(5001, mkP false [1;2;3] true [1;2;3] [])].
+Proof. exact swapped_order_loses. Qed.
 
 (* non-vacuity *)
 Example c36_client_tx :
